@@ -16,6 +16,14 @@
 (* call_Fq pops the mode key from the caller's dictionary) as failing      *)
 (* controls.                                                               *)
 (*                                                                         *)
+(* Experiment objects (the fitting wrapper, bumps_model.Experiment) add a   *)
+(* documented lazy protocol: theory() evaluates the parameter values once  *)
+(* and keeps the result until update() is called; a change of parameter    *)
+(* values without update() is allowed to go unnoticed.  What is promised -  *)
+(* and checked by Purity through `want` - is that after update() the next  *)
+(* theory() is the pure value of the CURRENT parameter values.  Variant     *)
+(* "updateKeepsCache" is the failing control.  (WithExp enables them.)      *)
+(*                                                                         *)
 (* The caller keeps what a call returned (variable `held`, tracked when    *)
 (* TrackHeld): a returned array must keep its value through every later    *)
 (* operation (HeldStable).  Returned arrays are copies; ReturnsView = TRUE *)
@@ -27,7 +35,8 @@ EXTENDS Naturals, Sequences, FiniteSets, TLC
 CONSTANTS Models, QSets, Requests, Slots, Wrappers, MaxOps,
           EmptyReq,     \* the request whose mesh has no point (num_eval = 0)
           ModeReq,      \* the request that carries radius_effective_mode in the dictionary
-          Variant,      \* "fixed" | "asWritten"
+          Variant,      \* "fixed" | "asWritten" | "updateKeepsCache"
+          WithExp,      \* Experiment objects take part
           TrackHeld,    \* follow the array the caller still holds from the last evaluating call
           ReturnsView   \* failing control: Call returns a view of the kernel's result buffer
 
@@ -37,14 +46,18 @@ VARIABLES kern,    \* [Slots -> [m, q, buf] | Dead]   buf: what the result buffe
           dm,      \* [Models \X QSets -> buf]  DirectModel calculators (each keeps one kernel and its buffer)
           dict,    \* [Requests -> BOOLEAN]  caller's dictionary for ModeReq still has its mode key
           ret,     \* last returned value: [val |-> <<m, q, r>> or "garbage", want |-> <<m, q, r>>]
+          exper,   \* [Models \X QSets -> [store, cache, dirty, buf]]  Experiment(data(q), Model(m)): parameter values
+                   \* as last set, the request whose theory is cached ("none": nothing cached), whether values were
+                   \* set since the last update(), and its kernel's reused buffer
           held,    \* [val, src]: the array kept from the last evaluating call, as read when it was returned, and
                    \* where its memory lives ("copy" or the kernel slot whose buffer it is a view of)
           nops
-vars == <<kern, loaded, wrap, dm, dict, ret, held, nops>>
+vars == <<kern, loaded, wrap, dm, dict, ret, exper, held, nops>>
 
 Dead == [m |-> "none", q |-> "none", buf |-> <<"garbage">>]
 NoRet == [val |-> <<"none">>, want |-> <<"none">>]
 NoHeld == [val |-> <<"none">>, src |-> "copy"]
+NoExp == [store |-> "mono", cache |-> "none", dirty |-> FALSE, buf |-> <<"garbage">>]
 Keep(val, src) == IF TrackHeld THEN held' = [val |-> val, src |-> src] ELSE UNCHANGED held
 
 Init == /\ kern = [s \in Slots |-> Dead]
@@ -53,6 +66,7 @@ Init == /\ kern = [s \in Slots |-> Dead]
         /\ dm = [x \in Models \X QSets |-> <<"garbage">>]
         /\ dict = [r \in Requests |-> TRUE]
         /\ ret = NoRet
+        /\ exper = [x \in Models \X QSets |-> NoExp]
         /\ held = NoHeld
         /\ nops = 0
 
@@ -63,7 +77,7 @@ MakeKernel(s, m, q) ==
     /\ kern' = [kern EXCEPT ![s] = [m |-> m, q |-> q, buf |-> <<"garbage">>]]   \* np.empty
     /\ loaded' = [loaded EXCEPT ![m] = TRUE]                                \* lazy dlopen
     /\ ret' = NoRet
-    /\ UNCHANGED <<wrap, dm, dict, held>>
+    /\ UNCHANGED <<wrap, dm, dict, held, exper>>
 
 \* what a kernel call leaves in the buffer and returns
 Overwrites(r) == Variant = "fixed" \/ r # EmptyReq
@@ -79,13 +93,13 @@ Call(s, r, isFq) ==
           /\ ret' = [val |-> newbuf, want |-> <<kern[s].m, kern[s].q, r>>]
           /\ Keep(newbuf, IF ReturnsView THEN s ELSE "copy")
     /\ dict' = IF isFq /\ r = ModeReq /\ Variant = "asWritten" THEN [dict EXCEPT ![r] = FALSE] ELSE dict
-    /\ UNCHANGED <<loaded, wrap, dm>>
+    /\ UNCHANGED <<loaded, wrap, dm, exper>>
 
 ReleaseKernel(s) ==
     /\ Tick /\ kern[s].m # "none"
     /\ kern' = [kern EXCEPT ![s] = Dead]
     /\ ret' = NoRet
-    /\ UNCHANGED <<loaded, wrap, dm, dict, held>>
+    /\ UNCHANGED <<loaded, wrap, dm, dict, held, exper>>
 
 \* KernelModel.release (dlclose); kernels made before keep their function pointers only if no
 \* other handle keeps the library mapped, so the histories release kernels first
@@ -93,15 +107,16 @@ ReleaseModel(m) ==
     /\ Tick /\ loaded[m]
     /\ \A s \in Slots : kern[s].m # m
     /\ \A q \in QSets : dm[<<m, q>>] = <<"garbage">>       \* nor a DirectModel holding one of its kernels
+    /\ \A q \in QSets : exper[<<m, q>>].buf = <<"garbage">>   \* nor an Experiment that has evaluated
     /\ loaded' = [loaded EXCEPT ![m] = FALSE]
     /\ ret' = NoRet
-    /\ UNCHANGED <<kern, wrap, dm, dict, held>>
+    /\ UNCHANGED <<kern, wrap, dm, dict, held, exper>>
 
 SetParam(w, r) ==
     /\ Tick
     /\ wrap' = [wrap EXCEPT ![w].store = r]
     /\ ret' = NoRet
-    /\ UNCHANGED <<kern, loaded, dm, dict, held>>
+    /\ UNCHANGED <<kern, loaded, dm, dict, held, exper>>
 \* evalDistribution builds a fresh kernel, evaluates, releases it
 Eval(w, q) ==
     /\ Tick
@@ -109,12 +124,12 @@ Eval(w, q) ==
        /\ ret' = [val |-> IF Overwrites(r) THEN <<wrap[w].m, q, r>> ELSE <<"garbage">>, want |-> <<wrap[w].m, q, r>>]
        /\ Keep(IF Overwrites(r) THEN <<wrap[w].m, q, r>> ELSE <<"garbage">>, "copy")
     \* (the wrapper class owns its own compiled model object: `loaded` is about core.load_model's)
-    /\ UNCHANGED <<kern, loaded, wrap, dm, dict>>
+    /\ UNCHANGED <<kern, loaded, wrap, dm, dict, exper>>
 Clone(w, w2) ==
     /\ Tick /\ w # w2
     /\ wrap' = [wrap EXCEPT ![w2] = wrap[w]]
     /\ ret' = NoRet
-    /\ UNCHANGED <<kern, loaded, dm, dict, held>>
+    /\ UNCHANGED <<kern, loaded, dm, dict, held, exper>>
 
 \* DirectModel(data(q), model)(**request): the calculator keeps its kernel between calls
 Direct(m, q, r) ==
@@ -124,15 +139,43 @@ Direct(m, q, r) ==
        /\ ret' = [val |-> newbuf, want |-> <<m, q, r>>]
        /\ Keep(newbuf, "copy")
     /\ loaded' = [loaded EXCEPT ![m] = TRUE]
-    /\ UNCHANGED <<kern, wrap, dict>>
+    /\ UNCHANGED <<kern, wrap, dict, exper>>
 \* core.load_model again: a new KernelModel object replaces the old one for later make_kernel calls
 Reload(m) ==
     /\ Tick
     /\ loaded' = [loaded EXCEPT ![m] = FALSE]      \* the new object opens its library lazily
     /\ ret' = NoRet
-    /\ UNCHANGED <<kern, wrap, dm, dict, held>>
+    /\ UNCHANGED <<kern, wrap, dm, dict, held, exper>>
+
+\* ---- Experiment(data(q), Model(m)): set parameter values / update() / theory()
+ExpSet(m, q, r) ==
+    /\ WithExp /\ Tick
+    /\ exper' = [exper EXCEPT ![<<m, q>>].store = r, ![<<m, q>>].dirty = TRUE]
+    /\ ret' = NoRet
+    /\ UNCHANGED <<kern, loaded, wrap, dm, dict, held>>
+ExpUpdate(m, q) ==
+    /\ WithExp /\ Tick
+    /\ exper' = [exper EXCEPT ![<<m, q>>].cache = IF Variant = "updateKeepsCache" THEN @ ELSE "none",
+                              ![<<m, q>>].dirty = FALSE]
+    /\ ret' = NoRet
+    /\ UNCHANGED <<kern, loaded, wrap, dm, dict, held>>
+ExpTheory(m, q) ==
+    /\ WithExp /\ Tick
+    /\ LET x == exper[<<m, q>>]
+           used == IF x.cache = "none" THEN x.store ELSE x.cache
+           newbuf == IF x.cache # "none" THEN x.buf                       \* cached: nothing is evaluated
+                     ELSE IF Overwrites(used) THEN <<m, q, used>> ELSE x.buf
+       IN /\ exper' = [exper EXCEPT ![<<m, q>>].cache = used, ![<<m, q>>].buf = newbuf]
+          \* promised: the current values unless they were set without update() (then the cached ones may be used)
+          /\ ret' = [val |-> IF x.cache # "none" THEN <<m, q, used>> ELSE newbuf,
+                     want |-> IF x.dirty THEN <<m, q, used>> ELSE <<m, q, x.store>>]
+          /\ Keep(IF x.cache # "none" THEN <<m, q, used>> ELSE newbuf, "copy")
+    /\ loaded' = [loaded EXCEPT ![m] = TRUE]
+    /\ UNCHANGED <<kern, wrap, dm, dict>>
 
 Next == \/ \E s \in Slots, m \in Models, q \in QSets : MakeKernel(s, m, q)
+        \/ \E m \in Models, q \in QSets, r \in Requests : ExpSet(m, q, r)
+        \/ \E m \in Models, q \in QSets : ExpUpdate(m, q) \/ ExpTheory(m, q)
         \/ \E m \in Models, q \in QSets, r \in Requests : Direct(m, q, r)
         \/ \E m \in Models : Reload(m)
         \/ \E s \in Slots, r \in Requests, f \in BOOLEAN : Call(s, r, f)
